@@ -9,7 +9,7 @@
 (* files only, types the library cannot decode).  Payload 10*t+k of type t *)
 (* has size SizeOf; payload 10*t+9 cannot be encoded.                      *)
 (***************************************************************************)
-EXTENDS TdfSession, TLC, Json
+EXTENDS TdfSession, TLC, Json, IOUtils
 
 CONSTANTS N,          \* table length
           WT,         \* writable abstract types, subset of 1..6
@@ -17,12 +17,14 @@ CONSTANTS N,          \* table length
           KS,         \* payload variants per type, subset of 1..8
           AddCs,      \* comments offered to add:     0 = default, 1, 2, 9 = unencodable
           RepCs,      \* comments offered to replace: -1 = none given, 1, 2, 9
-          DescSel     \* which initial-file descriptors to start from
+          DescSel,    \* which initial-file descriptors to start from
+          Readers     \* reader calls offered as actions: subset of ReaderKinds
 
 ImplicitRb(md) == {"rb"}              \* what the pinned code does
 ImplicitAny(md) == {md, "rb"}         \* what the properties allow
 RepCsFull == {-1, 2, 9}               \* cfg files cannot spell -1
 RepCsSmall == {-1, 9}
+RepCsNone == {-1}
 Types == WT \cup OT
 TypeOfU(u) == u \div 10
 SizeOfU(u) == ((u % 10) % 3) + 1          \* k=1 -> 2, k=2 -> 3, k=3 -> 1 ...
@@ -90,12 +92,15 @@ RepOp(u, c)  == [op |-> "replace", b |-> Blk(u, c), bad |-> IF IsBadU(u) THEN "b
 SetOp(u)     == [op |-> "set", b |-> Blk(u, NoComment), bad |-> IF IsBadU(u) THEN "bad" ELSE "none", cok |-> TRUE]
 RemOp(t)     == [op |-> "remove", t |-> t]
 Plain(name)  == [op |-> name]
+ReaderKinds  == {"get_type", "get_index", "item", "has", "getter", "blocks", "len", "nbytes", "repr", "eq"}
+ReadOp(w, t) == [op |-> "read", what |-> w, t |-> t]
+ReadOps      == {ReadOp(w, t) : w \in Readers, t \in WT}
 
 MutOps == {AddOp(u, c) : u \in UNION {Pay(t) : t \in WT}, c \in AddCs}
           \cup {RepOp(u, c) : u \in UNION {Pay(t) : t \in WT}, c \in RepCs}
           \cup {SetOp(u) : u \in UNION {Pay(t) : t \in WT}}
           \cup {RemOp(t) : t \in Types}
-AllOps == MutOps \cup {Plain("allow_write"), Plain("enter"), Plain("exit"), Plain("exit_exc"), Plain("read")}
+AllOps == MutOps \cup ReadOps \cup {Plain("allow_write"), Plain("enter"), Plain("exit"), Plain("exit_exc")}
 
 VARIABLES s, started
 vars == <<s, started>>
@@ -125,6 +130,7 @@ AllowWrite         == Do(Plain("allow_write"))
 Enter              == ~s.m.inside /\ Do(Plain("enter"))
 Exit               == s.m.inside /\ Do(Plain("exit"))
 ExitExc            == s.m.inside /\ Do(Plain("exit_exc"))
+Read(w, t)         == Do(ReadOp(w, t))
 
 Next ==
   \/ \E k \in DescIds : Setup(k)
@@ -134,6 +140,7 @@ Next ==
         \/ SetOk(u) \/ \E cause \in AllCauses : SetNo(u, cause)
   \/ \E t \in Types : RemOk(t) \/ \E cause \in AllCauses : RemNo(t, cause)
   \/ AllowWrite \/ Enter \/ Exit \/ ExitExc
+  \/ \E w \in Readers, t \in WT : Read(w, t)
 
 Spec == Init /\ [][Next]_vars
 
@@ -161,6 +168,7 @@ InvCarry == \A o \in MutOps :
    (o.op \in {"replace", "set"} /\ Causes(s, o) = {} /\ HasType(s.f, o.b.t) /\ o.b.c = NoComment)
      => Outcome(s, o).g.stored[o.b.t].c = s.g.stored[o.b.t].c
 
-\* export of the descriptors for the Python side
-DescJson == ToJson([k \in DescIds |-> AllDescs[k]])
+\* export of the descriptors for the Python side (lib/verif/plan.py builds the
+\* real initial files from them)
+ASSUME ("DESC_OUT" \in DOMAIN IOEnv) => JsonSerialize(IOEnv.DESC_OUT, AllDescs)
 =============================================================================
